@@ -700,7 +700,7 @@ _LENGTHS = r"::(len|scalar_len|byte_len|count|capacity)$"
 # lossy casts that are the operation's stated behaviour: one named site each
 CAST_INVENTORY = {
     "exit:i64->i32": "process/exit hands its Int64 to std::process::exit(i32); the operating system keeps the low byte of any status, "
-                     "so no Int64 -> status mapping is value-preserving (findings/candidates/C06.md)",
+                     "so no Int64 -> status mapping is value-preserving (findings/candidates/C06/README.md)",
 }
 
 
